@@ -254,17 +254,112 @@ def check_program(p):
     return out
 
 
+# ---- enumerated family: every operand slot of every composite expression kind holds its own value ---------------------------------
+# (a rendering that visits the operands of one node in another order than it writes them lists the values out of placeholder order)
+
+A_ = ["col", "T", "a"]
+B_ = ["col", "T", "b"]
+
+
+def _subq(h):
+    return ["q", {"cls": "inherit", "sources": {}, "steps": [["from_", [["src", "U"]]], ["select", [["col", "U", "a"]]], ["where", [["lt", ["col", "U", "b"], h]]]]}]
+
+
+def slot_templates():
+    """name -> (number of holes, function(list of hole nodes) -> expression node)"""
+    t = {}
+    for op in ("add", "sub", "mul", "div"):
+        t["arith_" + op] = (2, lambda h, op=op: [op, h[0], h[1]])
+        t["arith3_" + op] = (3, lambda h, op=op: [op, [op, h[0], h[1]], h[2]])
+    for op in ("eq", "ne", "gt", "ge", "lt", "le"):
+        t["cmp_" + op] = (2, lambda h, op=op: [op, ["add", A_, h[0]], h[1]])
+    for op in ("in", "notin"):
+        t[op + "_list"] = (4, lambda h, op=op: [op, ["add", A_, h[0]], [h[1], h[2], h[3]]])
+        t[op + "_value_term"] = (3, lambda h, op=op: [op, h[0], [h[1], h[2]]])
+        t[op + "_subquery"] = (2, lambda h, op=op: [op, ["sub", A_, h[0]], _subq(h[1])])
+    t["between"] = (3, lambda h: ["between", ["add", A_, h[0]], h[1], h[2]])
+    t["between_terms"] = (3, lambda h: ["between", ["add", A_, h[0]], ["add", B_, h[1]], ["add", B_, h[2]]])
+    t["like"] = (1, lambda h: ["like", A_, ["raw", "p%"]])
+    t["case"] = (4, lambda h: ["case", [[["eq", ["add", A_, h[0]], h[1]], h[2]]], h[3]])
+    t["case_two_whens"] = (5, lambda h: ["case", [[["gt", A_, h[0]], h[1]], [["lt", A_, h[2]], h[3]]], h[4]])
+    t["fn_coalesce"] = (3, lambda h: ["fn", "Coalesce", [["add", A_, h[0]], h[1], h[2]]])
+    t["cfn"] = (3, lambda h: ["cfn", "F", [h[0], ["mul", B_, h[1]], h[2]]])
+    t["agg_filter"] = (2, lambda h: ["call", ["fn", "Sum", [["add", A_, h[0]]]], "filter", [["gt", B_, h[1]]]])
+    t["agg_two_filters"] = (3, lambda h: ["call", ["call", ["fn", "Count", [["add", A_, h[0]]]], "filter", [["gt", B_, h[1]]]], "filter", [["lt", B_, h[2]]]])
+    t["agg_distinct_filter"] = (2, lambda h: ["call", ["call", ["fn", "Count", [["add", A_, h[0]]]], "distinct", []], "filter", [["gt", B_, h[1]]]])
+    t["window"] = (3, lambda h: ["call", ["call", ["an", "Sum", [["add", A_, h[0]]]], "over", [["add", B_, h[1]]]], "orderby", [["sub", B_, h[2]]]])
+    t["window_filter"] = (4, lambda h: ["call", ["call", ["call", ["an", "Sum", [["add", A_, h[0]]]], "filter", [["gt", B_, h[1]]]], "over", [["add", B_, h[2]]]], "orderby", [["sub", B_, h[3]]]])
+    t["tuple_in"] = (4, lambda h: ["in", ["tuple", [["add", A_, h[0]], h[1]]], [["tuple", [h[2], h[3]]]]])
+    t["not"] = (2, lambda h: ["not", ["eq", ["add", A_, h[0]], h[1]]])
+    t["neg"] = (2, lambda h: ["gt", ["neg", ["add", A_, h[0]]], h[1]])
+    t["isnull"] = (2, lambda h: ["isnull", ["add", ["add", A_, h[0]], h[1]]])
+    t["and_or"] = (4, lambda h: ["or", ["and", ["eq", A_, h[0]], ["eq", B_, h[1]]], ["and", ["eq", A_, h[2]], ["eq", B_, h[3]]]])
+    t["scalar_subquery_cmp"] = (2, lambda h: ["gt", ["add", A_, h[0]], _subq(h[1])])
+    t["nested_fn_case"] = (4, lambda h: ["fn", "Coalesce", [["case", [[["eq", A_, h[0]], h[1]]], h[2]], h[3]]])
+    return t
+
+
+SLOT_CLAUSES = ["select", "where", "having", "join_on", "orderby", "set_value", "insert_value"]
+
+
+def slot_program(cls, name, clause):
+    n, make = slot_templates()[name]
+    holes = [["vw", ["raw", 7001 + 13 * i]] for i in range(n)]
+    e = make(holes)
+    crit = prog_is_criterion(e)
+    src = {"T": ["tbl", "t1", None, None], "U": ["tbl", "t2", None, None]}
+    extra = ["vw", ["raw", 6001]]
+    if clause == "select":
+        steps = [["from_", [["src", "T"]]], ["select", [["as", e, "x"], ["add", B_, extra]]]]
+    elif clause == "where":
+        steps = [["from_", [["src", "T"]]], ["select", [["add", B_, extra]]], ["where", [e if crit else ["gt", e, ["raw", 6002]]]]]
+    elif clause == "having":
+        steps = [["from_", [["src", "T"]]], ["select", [A_]], ["groupby", [A_]], ["having", [e if crit else ["gt", e, ["raw", 6002]]]]]
+    elif clause == "join_on":
+        steps = [["from_", [["src", "T"]]], ["join", [["src", "U"], ["enum", "JoinType", "left"]], {}, ["on", [["and", ["eq", A_, ["col", "U", "a"]], e if crit else ["gt", e, ["raw", 6002]]]]]], ["select", [A_]]]
+    elif clause == "orderby":
+        steps = [["from_", [["src", "T"]]], ["select", [A_]], ["where", [["gt", B_, ["raw", 6002]]]], ["orderby", [e]], ["limit", [["raw", 6003]]]]
+    elif clause == "set_value":
+        steps = [["update", [["src", "T"]]], ["set", [B_, e]], ["where", [["eq", A_, ["raw", 6002]]]]]
+    elif clause == "insert_value":
+        steps = [["into", [["src", "T"]]], ["columns", [["py", "a"], ["py", "b"]]], ["insert", [["raw", 6002], e]]]
+    else:
+        raise HarnessError(clause)
+    return {"cls": cls, "sources": src, "steps": steps, "kind": "slots:" + name.split("_")[0]}
+
+
+def prog_is_criterion(e):
+    return e[0] in ("eq", "ne", "gt", "ge", "lt", "le", "in", "notin", "between", "like", "not", "isnull", "and", "or")
+
+
+def slot_cases():
+    for name in sorted(slot_templates()):
+        for clause in SLOT_CLAUSES:
+            if name.startswith(("agg_", "window")) and clause in ("where", "join_on", "set_value", "insert_value"):
+                continue  # aggregates / window functions do not stand there
+            if name.startswith("window") and clause == "having":
+                continue
+            for cls in CTXS:
+                yield {"family": "slots", "name": name, "clause": clause, "cls": cls}
+
+
 def clause_of(p, s_par):
     return p.get("kind", "?")
 
 
 def check_case(case):
+    if case.get("family") == "slots":
+        p = slot_program(case["cls"], case["name"], case["clause"])
+        res = check_program(p)
+        return [(mksig(case["cls"] if k in ("style", "numbering") or k.startswith("raises") else "any", "slots", case["name"].split("_")[0], k), d) for k, d in res if k != "__build__"]
     res = check_program(case)
     return [(mksig(case["cls"] if k in ("style", "numbering") or k.startswith("raises") else "any", case.get("kind", "?"), k), d) for k, d in res if k != "__build__"]
 
 
 def valid_case(case):
     try:
+        if case.get("family") == "slots":
+            return case["name"] in slot_templates() and case["clause"] in SLOT_CLAUSES and case["cls"] in CTXS
         prog.build_program(case)
         return case["cls"] in CTXS
     except (Exception, HarnessError):
@@ -279,12 +374,25 @@ def nontrivial(p, nvals):
 
 def shards(tier, sd):
     n = 8 if tier == "quick" else 32
-    return [(tier, sd * 1000 + k) for k in range(n)]
+    return [(tier, sd * 1000 + k) for k in range(n)] + [("slots", 0)]
 
 
 def run_shard(shard):
     tier, sd = shard
     col = Collector()
+    if tier == "slots":
+        for case in slot_cases():
+            p = slot_program(case["cls"], case["name"], case["clause"])
+            res = check_program(p)
+            if res and res[0][0] == "__build__":
+                col.count("slots_build_raised:%s:%s" % (case["name"], res[0][1]))
+                col.evaluations += 1
+                continue
+            col.case(case, True, classes=("slots", "clause:" + case["clause"]))
+            for k, d in res:
+                col.violation(mksig(case["cls"] if k in ("style", "numbering") or k.startswith("raises") else "any", "slots", case["name"].split("_")[0], k), case, d)
+        col.notes["slot_templates"] = len(slot_templates())
+        return col
     nex = 400 if tier == "quick" else 6000
 
     @seed(sd)
